@@ -169,9 +169,27 @@ def Maven.knownQual (a : MavenCV.Ast) : Bool :=
 /-- An unknown (or `sp`) qualifier attached with a dot. -/
 def Maven.dotUnknown (a : MavenCV.Ast) : Bool :=
   (match a.qual with | some (.dot, _) => true | _ => false) && !Maven.knownQual a
+/-- The version is `0` followed by a dot-attached qualifier (`0.alpha`). -/
+def Maven.zeroDot (a : MavenCV.Ast) : Bool :=
+  a.nums == [0] && (match a.qual with | some (.dot, q) => !Maven.releaseQual q | _ => false)
 def Maven.inLib (a : MavenCV.Ast) : Bool :=
   a.nums.all (fun n => decide (n < 2 ^ 63 - 1)) &&
   (match a.qnum with | some (_, n) => decide (n < 2 ^ 63 - 1) | none => true)
+
+/-- (Maven, on spellings) a numeric component that is zero and spelled with more than one digit. -/
+def zeroRunFrom : Bytes → Nat → Bool → Bool
+  | [], len, allZero => allZero && decide (len ≥ 2)
+  | c :: r, len, allZero =>
+    if isDigitB c then zeroRunFrom r (len + 1) (allZero && c == 48)
+    else (allZero && decide (len ≥ 2)) || zeroRunFrom r 0 true
+
+def zeroRun (s : Bytes) : Bool := zeroRunFrom s 0 true
+
+/-- (PyPI, on spellings) an upper-case letter within the first three bytes after one optional
+`v`: the window `possibleVersionString` inspects. -/
+def Pep.earlyUpper (s : Bytes) : Bool :=
+  let t := match s with | 118 :: r => r | 86 :: r => r | _ => s
+  (t.take 3).any isUpperB
 
 def Gem.inLib (a : Gem.Ast) : Bool :=
   a.segs.all (fun | .num n => decide (n < 2 ^ 63 - 1) | .str _ => true)
